@@ -8,7 +8,7 @@ from ..sub import Sub
 
 RULE = ("Non-trivial: D >= 2 with |correlation| >= 0.5 in some component and R >= 2, so that the pairing of Cholesky factors with "
         "components is visible.")
-BOUNDS = {"R": "1..7 and 20", "D": "1..6 and 17, 24", "kappa": "<=1e4", "n": "1, 7, 33, 2000, 4097 (structural); 200000 (statistical)"}
+BOUNDS = {"R": "1..7 and 20", "D": "1..6 and 17, 24", "kappa": "<=1e4", "n": "1, 7, 33, 2000, 4097, 2^20+4097 (structural); 200000 (statistical)"}
 ASSUMPTIONS = [
     "structural oracle: whitening the draws of component r with numpy's Cholesky factor of Sigma_r reproduces, as a multiset, the "
     "standard-normal stream jax.random.normal generates from the same key (any arrangement of the stream is accepted)",
@@ -31,6 +31,8 @@ def _strategy(stat):
             D, R = draw(st.sampled_from(shapes))
             kappa = draw(st.sampled_from([10.0, 1e3, 1e4]))
             n = 200000 if stat else draw(st.sampled_from([1, 7, 2000, 33, 4097]))
+            if not stat and R * D <= 4 and draw(st.sampled_from([False] * 7 + [True])):
+                n = 2**20 + 4097  # beyond a million draws (block-wise generation)
             case = {"D": D, "R": R, "n": n, "stat": stat, "p": draw(gen.measure_params("pdf", R, D, kappa)),
                     "seed": draw(st.integers(0, 2**31 - 1)), "seed2": draw(st.integers(0, 2**31 - 1)),
                     "typed_key": draw(st.booleans()), "diag": False}
@@ -90,8 +92,9 @@ def _statistical(fails, x, mu, Sig, tag):
             cc = (w[lagk:].T @ w[:-lagk]) / np.sqrt(n - lagk)
             if np.max(np.abs(cc)) > worst_dep:
                 worst_dep, which = float(np.max(np.abs(cc))), f"lag {lagk}"
-        for name, other in (("reversed order", w[::-1]), ("half shift", np.roll(w, n // 2, axis=0)), ("third shift", np.roll(w, n // 3, axis=0)),
-                            ("shift 4096", np.roll(w, 4096, axis=0))):
+        pairings = [("reversed order", w[::-1]), ("half shift", np.roll(w, n // 2, axis=0)), ("third shift", np.roll(w, n // 3, axis=0))]
+        pairings += [(f"shift 2^{k}", np.roll(w, 2**k, axis=0)) for k in (12, 16, 20) if 2**k < n // 2 + 1]
+        for name, other in pairings:
             if n % 2 == 1 and name == "reversed order":
                 a_, b_ = np.delete(w, n // 2, 0), np.delete(other, n // 2, 0)  # the middle draw pairs with itself
             else:
@@ -155,6 +158,13 @@ def _run(case):
         ok, x3 = lib(fails, "sample_other_key", lambda: np.asarray(p.sample(_key(case, case["seed2"]), n)))
         if ok and np.array_equal(x, x3):
             fails.append(Failure("sample:key_ignored", "different keys returned identical arrays"))
+    # independent continuous draws never coincide (a handful of float64 collisions are possible for D = 1 and n > 1e6)
+    if n >= 2:
+        for r in range(R):
+            dup = n - np.unique(x[:, r, :], axis=0).shape[0]
+            if dup > (3 if D == 1 and n > 10**5 else 0):
+                fails.append(Failure("sample:duplicate_draws", f"component {r}: {dup} of {n} draws are exact copies of other draws"))
+                break
     if case["stat"]:
         _statistical(fails, x, mu, Sig, "statistical")
         return fails
@@ -177,7 +187,10 @@ def _run(case):
         # with the stream known, the exact affine image is checked per component: x[n,r] = mu_r + L_r z for SOME stream element set;
         # the pairing of L_r with component r is what the multiset match of per-component whitening establishes.
         return fails
-    # different (but possibly valid) sampler: decide statistically on a large sample
+    # different (but possibly valid) sampler: decide statistically on a large sample (the sample itself if it is larger)
+    if n > 200000:
+        _statistical(fails, x, mu, Sig, "fallback_statistical")
+        return fails
     ok, xb = lib(fails, "sample_large", lambda: np.asarray(p.sample(_key(case, case["seed"]), 200000)))
     if ok:
         if xb.shape != (200000, R, D):
